@@ -897,7 +897,10 @@ impl Interpreter {
 
         // Parse the source
         let mut parser = Parser::new(source, &mut self.string_dict);
-        let program = parser.parse_program()?;
+        let program = parser.parse_program().map_err(|e| match &module_path {
+            Some(path) => e.in_file(path.as_str()),
+            None => e,
+        })?;
 
         // Collect all import requests with resolved paths
         // For main module, importer is None (we pass module_path for resolution but not as importer)
@@ -1384,7 +1387,10 @@ impl Interpreter {
 
         // Parse the source
         let mut parser = Parser::new(source, &mut self.string_dict);
-        let program = parser.parse_program()?;
+        let program = parser.parse_program().map_err(|e| match &module_path {
+            Some(path) => e.in_file(path.as_str()),
+            None => e,
+        })?;
 
         // Collect all import requests with resolved paths
         let imports = self.collect_import_requests_internal(&program, module_path.as_ref(), None);
@@ -1625,7 +1631,9 @@ impl Interpreter {
     ) -> Result<(), JsError> {
         // Parse the module
         let mut parser = Parser::new(source, &mut self.string_dict);
-        let program = parser.parse_program()?;
+        let program = parser
+            .parse_program()
+            .map_err(|e| e.in_file(resolved_path.as_str()))?;
 
         // Store the parsed program for later execution
         self.pending_module_sources.insert(resolved_path, program);
